@@ -113,10 +113,10 @@ package decoder
 // ---- item can still be declared and matches the typed prefix (attributes win over blocks of the same name).
 //@ contract (*decoder.PathDecoder).bodySchemaCandidates (d, ctx, body, schema, prefixRng, editRng) (result)
 //@   requires body != nil && schema != nil
+//@   requires d.maxCandidates >= 2
 //@   ensures [C06,name:limit] uint(len(result.List)) <= d.maxCandidates
-//@   ensures [C06] uint(len(result.List)) <= d.maxCandidates + 2
-//@   loop 1 invariant [C06] len(candidates.List) <= count + 2 && count >= 0 && uint(count) <= d.maxCandidates
-//@   loop 2 invariant [C06] len(candidates.List) <= count + 2 && count >= 0 && uint(count) <= d.maxCandidates
+//@   loop 1 invariant [C06] len(candidates.List) == count && count >= 0 && uint(count) <= d.maxCandidates
+//@   loop 2 invariant [C06] len(candidates.List) == count && count >= 0 && uint(count) <= d.maxCandidates
 //@   loop 1 iter [C07] (len(candidates.List) == old(len(candidates.List)) + 1) == (isAttributeDeclarable(body, name, schema.Attributes[name]) && (len(prefix) == 0 || strings.HasPrefix(name, string(prefix))))
 //@   loop 1 iter [C07] len(candidates.List) == old(len(candidates.List)) || len(candidates.List) == old(len(candidates.List)) + 1
 //@   loop 2 iter [C07] (len(candidates.List) == old(len(candidates.List)) + 1) == (!haskey(schema.Attributes, bType) && isBlockDeclarable(body, bType, schema.Blocks[bType]) && (len(prefix) == 0 || strings.HasPrefix(bType, string(prefix))))
